@@ -241,7 +241,9 @@ class Origin:
                 # ---- read request body
                 if kind == "cl":
                     while len(rest) < length:
-                        b = c.recv(65536)
+                        if getattr(req, "recv_pause", 0):
+                            time.sleep(req.recv_pause)
+                        b = c.recv(getattr(req, "recv_size", 65536))
                         if not b:
                             req.body_complete = False
                             break
@@ -253,6 +255,9 @@ class Origin:
                 elif kind == "chunked":
                     while True:
                         try:
+                            # (a chunked message always ends in CRLF: do not re-parse megabytes after every read)
+                            if len(rest) > 262144 and not rest.endswith(b"\r\n") and not getattr(c, "_eof", False):
+                                raise httpref.Incomplete()
                             body, used, trailers = httpref.parse_chunked(rest)
                             req.body = body
                             req.trailers = trailers
@@ -260,7 +265,9 @@ class Origin:
                             buf = rest[used:]
                             break
                         except httpref.Incomplete:
-                            b = c.recv(65536)
+                            if getattr(req, "recv_pause", 0):
+                                time.sleep(req.recv_pause)      # a slow reader (set by handler.before_body)
+                            b = c.recv(getattr(req, "recv_size", 65536))
                             if not b:
                                 req.body_complete = False
                                 try:
